@@ -2,6 +2,7 @@ import H2T.Lemmas.Balance
 import H2T.Lemmas.TagRich
 import H2T.Lemmas.TagTreePre
 import H2T.Lemmas.TagTreeTable
+import H2T.Lemmas.DomFactor
 
 /-! # C09 — rich annotations mirror element nesting exactly
 
@@ -235,6 +236,17 @@ theorem rich_no_tagged_character_invented (y : Cell) (hyb : isBox y.ch = false) 
     (tree : RNode) (ls : List RLine) (hfn : cfg.footnotes = false) (h : renderTree cfg Deco.rich w tree = .ok ls) :
     ((ls.flatMap trink).map (retag erasePre)).count y ≤ (nodeTT erasePre cfg Deco.rich [] 0 0 tree).count y :=
   renderTree_tagsT erasePre richAlpha y hyb hyP cfg Deco.rich erasePre_rich w tree ls hfn rich_avoids h
+
+/-- **whole pipeline, rich output**: whatever the document (any DOM the HTML parser delivers) and the agent, user and
+    document style sheets — a `.lines` outcome holds no tagged character that the specification of the render tree the
+    front end built does not hold at least as often -/
+theorem rich_no_tagged_character_invented_pipeline (y : Cell) (hyb : isBox y.ch = false) (hyP : richAlpha y.ch = true) (cfg : Cfg) (w : Nat)
+    (useDoc : Bool) (agentCss userCss : Option (List Char)) (ci : CharInfo) (depth : Nat) (dom : Node) (ls : List RLine)
+    (hfn : cfg.footnotes = false) (h : renderDom cfg Deco.rich w useDoc agentCss userCss ci depth dom = .lines ls) :
+    ∃ tree, domTree cfg.decorate useDoc agentCss userCss ci depth dom = .ok tree ∧
+      ((ls.flatMap trink).map (retag erasePre)).count y ≤ (nodeTT erasePre cfg Deco.rich [] 0 0 tree).count y := by
+  obtain ⟨tree, hdt, _, hr⟩ := renderDom_lines cfg Deco.rich w useDoc agentCss userCss ci depth dom ls h
+  exact ⟨tree, hdt, rich_no_tagged_character_invented y hyb hyP cfg w tree ls hfn hr⟩
 
 /-- what the specification says about a table: rows in order, each cell's children walked with the table's, the row's and
     the cell's colours appended to the stack -/
